@@ -103,7 +103,8 @@ Theorem C05_float_sign_ops :
 Proof. exact float_sign_ops_all. Qed.
 Print Assumptions C05_float_sign_ops.
 
-(* comparisons are false on NaN (ne: true); otherwise the order of the sign-magnitude key, which identifies -0 and +0 *)
+(* comparisons are false on NaN (ne: true); otherwise the order of the sign-magnitude key, which identifies -0 and +0 and orders
+   bit patterns exactly as the denoted values (f_sval = (-1)^sign * m * 2^e scaled by the fixed power 2^(bias+mw-1)) are ordered *)
 Theorem C05_float_compare :
   (forall mw ew a b, f_nan mw ew a || f_nan mw ew b = true ->
   f_eq mw ew a b = 0 /\ f_ne mw ew a b = 1 /\ f_lt mw ew a b = 0 /\ f_gt mw ew a b = 0 /\ f_le mw ew a b = 0 /\ f_ge mw ew a b = 0) /\
@@ -113,7 +114,10 @@ Theorem C05_float_compare :
   (f_le mw ew a b = 1 <-> f_key mw ew a <= f_key mw ew b) /\ (f_ge mw ew a b = 1 <-> f_key mw ew a >= f_key mw ew b)) /\
   (forall mw ew x, fmt_ok mw ew -> fbits mw ew x ->
   (f_key mw ew x = 0 <-> f_zero mw ew x = true) /\
-  (f_sign mw ew x = 0 -> f_key mw ew x = f_mag mw ew x) /\ (f_sign mw ew x = 1 -> f_key mw ew x = - f_mag mw ew x)).
+  (f_sign mw ew x = 0 -> f_key mw ew x = f_mag mw ew x) /\ (f_sign mw ew x = 1 -> f_key mw ew x = - f_mag mw ew x)) /\
+  (forall mw ew x y, fmt_ok mw ew -> fbits mw ew x -> fbits mw ew y ->
+  (f_key mw ew x < f_key mw ew y <-> f_sval mw ew x < f_sval mw ew y) /\
+  (f_key mw ew x = f_key mw ew y <-> f_sval mw ew x = f_sval mw ew y)).
 Proof. exact float_compare_all. Qed.
 Print Assumptions C05_float_compare.
 
